@@ -223,6 +223,16 @@ func (ix *stepIdx) lockTail(e *Event, file string) *Event {
 	return last
 }
 
+// hasLockSteps reports whether the task was ever released at an automatic lock yield.
+func (ix *stepIdx) hasLockSteps(task string) bool {
+	for _, e := range ix.byTask[task] {
+		if strings.HasPrefix(e.Info, "lock@") {
+			return true
+		}
+	}
+	return false
+}
+
 func (ix *stepIdx) reqStep(req, point string) int {
 	for _, e := range ix.byReq[req] {
 		if e.Info == point {
